@@ -400,8 +400,9 @@ pub fn parse_proj(definition: &str) -> Result<String, Error> {
         // inversions, and handle directional omissions (omit_fwd, omit_inv)
         let mut geodesy_step = elements.join(" ").trim().to_string();
         if !geodesy_step.is_empty() {
-            if !pipeline_globals.is_empty() {
-                elements.insert(1, pipeline_globals.clone());
+            // (one element per global: the handling of the modifiers below looks at whole elements)
+            for (i, global) in pipeline_globals.split_whitespace().enumerate() {
+                elements.insert(1 + i, global.to_string());
             }
 
             let step_is_inverted = elements.contains(&"inv".to_string());
